@@ -161,7 +161,7 @@ def run : Runner
         let (s, c) := s.shift
         some (s, next, toks ++ [s!"{match c with | some c => toString c.id | none => "nil"}/{s.coins.length}/{s.totalValue}/{s.totalValueAge}/{idsTok s.coins "."}"])
       | _ => none) (({} : CS), 0, [])
-    let ins := if st.coins.isEmpty then "-" else ".".intercalate (st.coins.map fun c => s!"{c.id}@{c.id}")
+    let ins := if st.txInputs.isEmpty then "-" else ".".intercalate (st.txInputs.map fun i => s!"{i}@{i}")
     let model := s!"{tokList id toks} {ins} 1 1"
     -- totals never drift: evaluated on the implementation's per-step observation
     let prop :=
